@@ -520,6 +520,20 @@ func (n *Net) Relay(from, to int, timeout time.Duration) RelayResult {
 	if err != nil {
 		return RelayResult{FirstHop: -1, Err: err}
 	}
+	return n.relayVia(ctx, src, dst, next)
+}
+
+// RelayVia opens a relayed connection from -> to whose first hop is the given neighbour of
+// the origin instead of the one the origin's own route table would choose: a relay must
+// behave whatever neighbour a request comes from (stale routes, dead ends).
+func (n *Net) RelayVia(from, to, first int, timeout time.Duration) RelayResult {
+	ctx, cancel := context.WithTimeout(n.ctx, timeout)
+	defer cancel()
+	return n.relayVia(ctx, n.Nodes[from], n.Nodes[to], n.Nodes[first].Overlay)
+}
+
+func (n *Net) relayVia(ctx context.Context, src, dst *Node, next boson.Address) RelayResult {
+	var err error
 	hop, _ := n.Index(next)
 	st, err := src.Streamer.NewStream(ctx, next, nil, routetab.ProtocolName, routetab.ProtocolVersion, routetab.StreamOnRelayConnChain)
 	if err != nil {
